@@ -342,7 +342,9 @@ def gen_item(rng, depth, in_alt):
 def gen_top(rng, depth):
     x = gen_item(rng, depth, False)
     if isinstance(x, str) and rng.random() < 0.15:
-        s = rng.randrange(0, 64 * 20)
+        s = 0 if rng.random() < 0.2 else rng.randrange(0, 64 * 20)
+        if rng.random() < 0.2:
+            return {"tok": x, "s": frac_str(Fraction(s, 64)), "e": frac_str(Fraction(s, 64))}
         return {"tok": x, "s": frac_str(Fraction(s, 64)), "e": frac_str(Fraction(s + rng.randrange(0, 200), 64))}
     return x
 
@@ -351,10 +353,11 @@ def grid_time(rng, lo=0, hi=30):
     return Fraction(rng.randrange(lo * 64, hi * 64 + 1), 64)
 
 
-def gen_timed(rng, n, hi=30, sort=False, zero_len=0.15, toks=None):
+def gen_timed(rng, n, hi=30, sort=False, zero_len=0.15, toks=None, at_zero=0.08):
     out = []
     for _ in range(n):
-        s = grid_time(rng, 0, hi)
+        # time 0.0 is a legal start (and, with a zero-length segment, a legal end): the falsy number
+        s = Fraction(0) if rng.random() < at_zero else grid_time(rng, 0, hi)
         e = s if rng.random() < zero_len else s + Fraction(rng.randrange(1, 64 * 3), 64)
         out.append([rng.choice(toks or TOK_TIMED), s, e])
     if sort:
@@ -396,7 +399,7 @@ def gen_ctm_text(rng):
     n = rng.randint(0, 7)
     recs = []
     for _ in range(n):
-        s = grid_time(rng, 0, rng.choice([3, 30]))
+        s = Fraction(0) if rng.random() < 0.08 else grid_time(rng, 0, rng.choice([3, 30]))
         du = Fraction(0) if rng.random() < 0.15 else Fraction(rng.randrange(1, 200), 64)
         recs.append([rng.choice(wfns), rng.choice(chans), frac_str(s), frac_str(du), rng.choice(TOK_TIMED)])
     if rng.random() < 0.5:
@@ -405,8 +408,11 @@ def gen_ctm_text(rng):
     wc2utt = None
     if use_map:
         keys = sorted({(r[0], r[1]) for r in recs})
-        if keys and rng.random() < 0.15:
+        r = rng.random()
+        if keys and r < 0.15:
             keys = keys[:-1]                   # KeyError on read
+        elif r < 0.25:
+            keys = []                          # an empty mapping is a mapping: KeyError on the first record
         wc2utt = [[w, c, f"utt-{w}-{c}"] for w, c in keys]
     lines, well_formed = [], True          # lines: [text, index of its record or None]
     bad = rng.random() < 0.25
@@ -500,7 +506,7 @@ TG_DOC_TOKS = ["a", "b", "cat", "", "two words", "é", "日本語", "12", "3.5",
 
 def gen_tg_doc(rng):
     ntier = rng.choice([1, 2, 2, 3, 3, 4])
-    names = [rng.choice(["words", "phones", "pts", "a", "b", "my tier", "1", "é"]) for _ in range(ntier)]
+    names = [rng.choice(["words", "phones", "pts", "a", "b", "my tier", "1", "é", "", "0"]) for _ in range(ntier)]
     tiers = []
     for name in names:
         point = rng.random() < 0.35
@@ -508,6 +514,11 @@ def gen_tg_doc(rng):
         cur = grid_time(rng, 0, rng.choice([2, 9, 12]))
         tmin = cur - (Fraction(rng.randrange(0, 64), 64) if rng.random() < 0.4 else 0)
         tmin = max(tmin, Fraction(0))
+        r0 = rng.random()
+        if r0 < 0.12:              # a tier that starts at 0.0 with its first entry later / at 0.0 as well
+            tmin = Fraction(0)
+        elif r0 < 0.2:
+            tmin = cur = Fraction(0)
         ents = []
         for _ in range(n):
             if rng.random() < 0.4:
@@ -529,7 +540,137 @@ def gen_tg_doc(rng):
     else:
         tier_id = "no such tier"
     return {"kind": "tg_doc", "tiers": tiers, "precision": rng.randint(0, 6), "layout": rng.choice(["long", "short"]),
-            "blank_line": rng.random() < 0.7, "tier_id": tier_id, "fill": rng.choice([None, "sil", "a"])}
+            "blank_line": rng.random() < 0.7, "tier_id": tier_id, "fill": rng.choice(TG_FILLS)}
+
+
+TG_NAMES = ["transcript", "my tier", "", "words", "1", 'a"b', "é 日本", "IntervalTier", '"']
+TG_FILLS = [None, "sil", "a", ""]        # "" is Praat's own label for an unlabelled stretch
+TG_DEFAULTS = {"precision": 3, "tier_name": "transcript", "point_tier": None, "start_time": None, "end_time": None,
+               "tier_id": 0, "fill": None}
+
+
+def fine_time(rng, hi):
+    """a time on the 2^-14 grid; exact in double, exact decimal expansion"""
+    return Fraction(rng.randrange(0, hi * 64 + 1), 64) + Fraction(rng.randrange(0, 256), 1 << 14)
+
+
+def fine_dur(rng):
+    """a duration between about 1e-6 and 1e-3 s (dyadic: exact in double)"""
+    k = rng.randint(11, 20)
+    return Fraction(rng.randrange(1, (1 << min(k - 10, 4)) + 1), 1 << k)
+
+
+def gen_tg_transcript(rng, style):
+    n = rng.choice([1, 2, 3, 4, 6])
+    hi = rng.choice([5, 9, 30, 120])
+    if style == "points":
+        return gen_timed(rng, n, hi=hi, sort=True, zero_len=1.0, toks=TOK_TG)
+    if style == "free":
+        return gen_timed(rng, n, hi=hi, sort=rng.random() < 0.7, toks=TOK_TG)
+    if style == "zeros":            # everything at time 0.0
+        return [[rng.choice(TOK_TG), "0", "0"] for _ in range(n)]
+    if style == "fine":
+        # every segment shorter than a millisecond (sample-accurate events); some of them may be exact points
+        some_points = rng.random() < 0.3
+        cur = Fraction(0) if rng.random() < 0.15 else fine_time(rng, hi)
+        t = []
+        for _ in range(n):
+            if rng.random() < 0.6:
+                cur += Fraction(rng.randrange(1, 128), 64)
+            e = cur if some_points and rng.random() < 0.5 else cur + fine_dur(rng)
+            t.append([rng.choice(TOK_TG), frac_str(cur), frac_str(e)])
+            cur = e
+        return t
+    # "chain" / "gaps" / "from_zero" (chain or gaps with the first entry at 0.0)
+    cur = Fraction(0) if style == "from_zero" else grid_time(rng, 0, hi)
+    t = []
+    for j in range(n):
+        if style != "chain" and rng.random() < 0.5 and not (style == "from_zero" and j == 0 and rng.random() < 0.5):
+            cur += Fraction(rng.randrange(1, 128), 64)
+        e = cur + Fraction(rng.randrange(1, 200), 64)
+        t.append([rng.choice(TOK_TG), frac_str(cur), frac_str(e)])
+        cur = e
+    return t
+
+
+def gen_textgrid(rng, style=None):
+    fine = style == "fine"
+    style = style or rng.choice(["chain", "gaps", "points", "free"])
+    t = gen_tg_transcript(rng, style)
+    starts = [Fraction(x[1]) for x in t]
+    ends = [Fraction(x[2]) for x in t]
+    case = {"kind": "textgrid", "t": t, "precision": rng.randint(0, 6),
+            "point_tier": rng.choice([None, None, True, False]),
+            "tier_name": rng.choice(TG_NAMES), "start_time": None, "end_time": None,
+            "fill": rng.choice(TG_FILLS), "tier_id": 0}
+    if fine:
+        case["style"] = "fine"
+        case["precision"] = rng.choice([3, 4, 4, 5, 5, 6, 6, 7, 9])
+        case["point_tier"] = rng.choice([None, None, None, False])
+    r = rng.random()
+    if r < 0.25:
+        case["start_time"] = frac_str(max(Fraction(0), min(starts) - Fraction(rng.randrange(0, 64), 64)))
+    elif r < 0.3:
+        case["start_time"] = frac_str(min(starts) + Fraction(1, 64))      # ValueError
+    r = rng.random()
+    if r < 0.25:
+        case["end_time"] = frac_str(max(ends) + Fraction(rng.randrange(0, 64), 64))
+    elif r < 0.3:
+        case["end_time"] = frac_str(max(ends) - Fraction(1, 64))           # ValueError
+    r = rng.random()
+    if r < 0.3:
+        case["tier_id"] = case["tier_name"]
+    elif r < 0.36:
+        case["tier_id"] = "no such tier"
+    elif r < 0.45:
+        case["tier_id"] = rng.choice([-1, 1, 2])
+    if rng.random() < 0.12:      # every option left at its default (the values of pydrobert.torch.config)
+        case.update({"precision": 3, "tier_name": "transcript", "point_tier": None, "start_time": None,
+                     "end_time": None, "use_defaults": True})
+        if isinstance(case["tier_id"], str) and case["tier_id"] != "no such tier":
+            case["tier_id"] = "transcript"
+    return case
+
+
+def gen_textgrid_falsy(rng):
+    """Each optional argument of write_textgrid / read_textgrid independently: left out, at the legal value that
+    is falsy in Python (0.0, 0, "", False), or at an ordinary value. What each must do is in the documentation:
+    `start_time=0.0` is the start of the recording even if the first entry starts later, `precision=0` prints whole
+    seconds, `tier_name=""` names the tier "", `point_tier=False` is an interval tier even if every segment has no
+    length, `fill_token=""` fills the gaps with "" (Praat's label for silence), `tier_id=0` / `""` select a tier."""
+    style = rng.choice(["from_zero", "from_zero", "gaps", "gaps", "chain", "points", "zeros", "fine"])
+    t = gen_tg_transcript(rng, style)
+    if rng.random() < 0.3:
+        t[rng.randrange(len(t))][0] = ""           # the empty label
+    starts = [Fraction(x[1]) for x in t]
+    ends = [Fraction(x[2]) for x in t]
+    case = {"kind": "textgrid", "t": t, "stream": "falsy", "style": style}
+    omit = []
+
+    def pick(key, falsy, ordinary):
+        how = rng.choice(["omit", "falsy", "falsy", "ordinary"])
+        if how == "omit":
+            case[key] = TG_DEFAULTS[key]
+            omit.append(key)
+        elif how == "falsy":
+            case[key] = falsy
+        else:
+            case[key] = ordinary()
+    pick("start_time", "0", lambda: frac_str(max(Fraction(0), min(starts) - Fraction(rng.randrange(0, 64), 64))))
+    # end_time=0.0 is only admissible when nothing ends later
+    pick("end_time", "0" if max(ends) == 0 else None, lambda: frac_str(max(ends) + Fraction(rng.randrange(0, 64), 64)))
+    pick("tier_name", "", lambda: rng.choice(["words", "my tier", "0", "None"]))
+    pick("point_tier", False, lambda: all(a == b for a, b in zip(starts, ends)) or None)
+    pick("precision", 0, lambda: rng.choice([1, 2, 4, 5, 6]))
+    pick("fill", "", lambda: rng.choice(["sil", "0", " "]))
+    how = rng.choice(["omit", "zero", "name", "last"])
+    if how == "omit":
+        case["tier_id"] = 0
+        omit.append("tier_id")
+    else:
+        case["tier_id"] = {"zero": 0, "name": case["tier_name"], "last": -1}[how]
+    case["omit"] = sorted(omit)
+    return case
 
 
 class C11(PropertyCheck):
@@ -686,6 +827,13 @@ class C11(PropertyCheck):
                 case["utt2wc"] = [["u1", "w", "A"], ["u2", "v", "A"]]
                 case["wc2utt"] = [["w", "A", "u1"]]
             yield case
+        for i in range(24 if not big else 200):   # an EMPTY mapping is a mapping (not "no mapping given")
+            nutt = rng.choice([0, 1, 1, 2])
+            ts = [[u, gen_timed(rng, rng.choice([0, 1, 2]), hi=5)] for u in rng.sample(["u1", "u2", "0", "x"], nutt)]
+            which = rng.choice(["utt2wc", "wc2utt", "both"])
+            yield {"kind": "ctm", "ts": ts, "map_type": rng.choice(MAP_TYPES), "stream": "empty_mapping",
+                   "utt2wc": [] if which != "wc2utt" else rng.choice([None, "A", "0"]),
+                   "wc2utt": [] if which != "utt2wc" else None}
         for i in range(10 if not big else 80):   # tolerance stream: arbitrary 3-decimal floats
             ts = []
             for u in rng.sample(["u1", "u2", "u3"], rng.randint(1, 3)):
@@ -700,56 +848,18 @@ class C11(PropertyCheck):
         for i in range(60 if not big else 600):
             yield gen_ctm_text(rng)
         # --- TextGrid
-        names = ["transcript", "my tier", "", "words", "1", 'a"b', "é 日本", "IntervalTier", '"']
         n_tg = 250 if not big else 2500
         for i in range(n_tg):
-            n = rng.choice([1, 2, 3, 4, 6])
-            hi = rng.choice([5, 9, 30, 120])
-            style = rng.choice(["chain", "gaps", "points", "free"])
-            if style == "points":
-                t = gen_timed(rng, n, hi=hi, sort=True, zero_len=1.0, toks=TOK_TG)
-            elif style == "free":
-                t = gen_timed(rng, n, hi=hi, sort=rng.random() < 0.7, toks=TOK_TG)
-            else:
-                cur = grid_time(rng, 0, hi)
-                t = []
-                for _ in range(n):
-                    if style == "gaps" and rng.random() < 0.5:
-                        cur += Fraction(rng.randrange(1, 128), 64)
-                    e = cur + Fraction(rng.randrange(1, 200), 64)
-                    t.append([rng.choice(TOK_TG), frac_str(cur), frac_str(e)])
-                    cur = e
-            starts = [Fraction(x[1]) for x in t]
-            ends = [Fraction(x[2]) for x in t]
-            case = {"kind": "textgrid", "t": t, "precision": rng.randint(0, 6),
-                    "point_tier": rng.choice([None, None, True, False]),
-                    "tier_name": rng.choice(names), "start_time": None, "end_time": None,
-                    "fill": rng.choice([None, "sil", "a"]), "tier_id": 0}
-            r = rng.random()
-            if r < 0.25:
-                case["start_time"] = frac_str(max(Fraction(0), min(starts) - Fraction(rng.randrange(0, 64), 64)))
-            elif r < 0.3:
-                case["start_time"] = frac_str(min(starts) + Fraction(1, 64))      # ValueError
-            r = rng.random()
-            if r < 0.25:
-                case["end_time"] = frac_str(max(ends) + Fraction(rng.randrange(0, 64), 64))
-            elif r < 0.3:
-                case["end_time"] = frac_str(max(ends) - Fraction(1, 64))           # ValueError
-            r = rng.random()
-            if r < 0.3:
-                case["tier_id"] = case["tier_name"]
-            elif r < 0.36:
-                case["tier_id"] = "no such tier"
-            elif r < 0.45:
-                case["tier_id"] = rng.choice([-1, 1, 2])
-            if rng.random() < 0.12:      # every option left at its default (the values of pydrobert.torch.config)
-                case.update({"precision": 3, "tier_name": "transcript", "point_tier": None, "start_time": None,
-                             "end_time": None, "use_defaults": True})
-                if isinstance(case["tier_id"], str) and case["tier_id"] != "no such tier":
-                    case["tier_id"] = "transcript"
-            yield case
+            yield gen_textgrid(rng)
         yield {"kind": "textgrid", "t": [], "precision": 3, "point_tier": None, "tier_name": "transcript",
                "start_time": None, "end_time": None, "fill": None, "tier_id": 0}
+        # segments shorter than the default print precision resolves, at every precision (the tier type is
+        # inferred from them "within precision `precision`")
+        for i in range(60 if not big else 600):
+            yield gen_textgrid(rng, style="fine")
+        # every optional argument at: omitted / its falsy legal value / an ordinary value
+        for i in range(90 if not big else 900):
+            yield gen_textgrid_falsy(rng)
         for i in range(10 if not big else 60):      # malformed: labels / names the format cannot hold
             t = gen_timed(rng, rng.choice([1, 2, 3]), hi=9, sort=True, toks=TOK_TG)
             mode = rng.choice(["cr_label", "cr_label", "nl_name", "cr_name"])
@@ -761,7 +871,7 @@ class C11(PropertyCheck):
             else:
                 name = "a\rb"
             yield {"kind": "textgrid", "t": t, "precision": rng.randint(0, 4), "point_tier": None, "tier_name": name,
-                   "start_time": None, "end_time": None, "fill": rng.choice([None, "sil"]),
+                   "start_time": None, "end_time": None, "fill": rng.choice([None, "sil", ""]),
                    "tier_id": rng.choice([0, name]), "malformed": mode}
         # --- TextGrid files with several tiers, long ("xmin = ...") and short layout
         for i in range(80 if not big else 800):
@@ -771,16 +881,22 @@ class C11(PropertyCheck):
         n_fr = 200 if not big else 2000
         for i in range(n_fr):
             n = rng.randint(0, 6)
-            vocab = rng.sample(TOK_ANY, rng.randint(1, 8))
+            vocab = rng.sample(TOK_ANY + ["", ""], rng.randint(1, 8))     # "" is a legal dictionary key / token
+            vocab = list(dict.fromkeys(vocab))
             ids = rng.sample(range(-3, 40), len(vocab))
+            if 0 not in ids and rng.random() < 0.3:
+                ids[rng.randrange(len(ids))] = 0                          # id 0
             use_map = rng.random() < 0.8
+            empty_map = use_map and rng.random() < 0.08                   # token2id = {} is a mapping without entries
+            if empty_map:
+                vocab, ids = [], []
             t = []
             for _ in range(n):
-                tok = rng.choice(vocab) if use_map else rng.randrange(0, 50)
+                tok = rng.choice(vocab) if vocab and use_map else rng.randrange(0, 50)
                 if rng.random() < 0.3:
                     t.append(tok)
                 else:
-                    s = grid_time(rng, 0, rng.choice([1, 12, 30]))
+                    s = Fraction(0) if rng.random() < 0.08 else grid_time(rng, 0, rng.choice([1, 12, 30]))
                     r = rng.random()
                     e = s if r < 0.2 else s + Fraction(rng.randrange(1, 8 if r < 0.5 else 200), 64)
                     t.append([tok, frac_str(s), frac_str(e)])
@@ -791,23 +907,25 @@ class C11(PropertyCheck):
                 case["token2id"] = [[v, k] for v, k in zip(vocab, ids)]
                 case["id2token"] = [[k, v] for v, k in zip(vocab, ids)]
                 r = rng.random()
-                if r < 0.25:       # out-of-vocabulary tokens with an unk
-                    oov = rng.choice(["OOV", "zzz"])
+                if empty_map:      # every token is out of vocabulary: the unk id if there is one, else itself
+                    case["unk"] = rng.choice([None, 0, 0, 77])
+                elif r < 0.3:      # out-of-vocabulary tokens with an unk (0 is an id like any other)
+                    oov = rng.choice(["OOV", "zzz", ""] if "" not in vocab else ["OOV", "zzz"])
                     if t:
                         j = rng.randrange(len(t))
-                        t[j] = oov if isinstance(t[j], str) else [oov] + t[j][1:]
-                    case["unk"] = rng.choice([vocab[0], 77, "nokey"])
+                        t[j] = oov if not isinstance(t[j], list) else [oov] + t[j][1:]
+                    case["unk"] = rng.choice([vocab[0], 77, "nokey", 0, 0] + ([""] if "" in vocab else []))
             else:
                 case["token2id"] = None
                 case["id2token"] = None
                 if rng.random() < 0.3:     # "If token2id is None, unk has no effect"
-                    case["unk"] = rng.choice([77, "nokey"])
+                    case["unk"] = rng.choice([77, "nokey", 0, ""])
             if rng.random() < 0.12:  # frame times already given (no frame shift)
                 case["f"] = None
                 t2 = []
                 for x in t:
                     if isinstance(x, list):
-                        a = rng.randrange(0, 500)
+                        a = 0 if rng.random() < 0.2 else rng.randrange(0, 500)      # frame 0 is a frame
                         t2.append([x[0], str(a), str(a + rng.randrange(0, 50))])
                     else:
                         t2.append(x)
@@ -900,6 +1018,14 @@ class C11(PropertyCheck):
         else:
             obs["read"] = rf["ok"]["r"]
             obs["nwarn"] = rf["ok"]["nwarn"]
+        # processes=0 spelled out (positionally and by keyword) is the default: no pool at all
+        with fake_pool() as fp:
+            try:
+                r0 = [canon_trn(d.read_trn(path, False, 0, case["chunk"])),
+                      canon_trn(d.read_trn(trn=path, warn=False, processes=0))]
+                obs["processes0_same"] = all(x == obs.get("read") for x in r0) and not fp.calls
+            except OSError:
+                obs["processes0_same"] = "error" in rf and not fp.calls
         # the multi-process branch with the pool replaced by an in-process ordered imap
         with fake_pool() as fp:
             try:
@@ -1024,11 +1150,19 @@ class C11(PropertyCheck):
         d = data()
         t = [(tok, fl(s), fl(e)) for tok, s, e in case["t"]]
         kw = {"tier_name": case["tier_name"], "precision": case["precision"]}
+        import pydrobert.torch.config as config
+        deft = {"tier_name": config.DEFT_TEXTGRID_TIER_NAME, "precision": config.DEFT_FLOAT_PRINT_PRECISION,
+                "tier_id": config.DEFT_TEXTGRID_TIER_ID}
+        for k_, v_ in deft.items():
+            if TG_DEFAULTS[k_] != v_:
+                raise RuntimeError(f"config default of {k_} changed: {v_!r}")
+        omit = set(case.get("omit") or ())
         if case.get("use_defaults"):
-            import pydrobert.torch.config as config
-            if (config.DEFT_TEXTGRID_TIER_NAME, config.DEFT_FLOAT_PRINT_PRECISION) != ("transcript", 3):
-                raise RuntimeError("config defaults changed: DEFT_TEXTGRID_TIER_NAME / DEFT_FLOAT_PRINT_PRECISION")
-            kw = {}
+            omit |= {"tier_name", "precision"}
+        for k_ in omit:          # an omitted option is one whose value in the case is the documented default
+            if case[k_] != TG_DEFAULTS[k_]:
+                raise RuntimeError(f"case omits {k_} but carries {case[k_]!r}")
+            kw.pop(k_, None)
         if case["point_tier"] is not None:
             kw["point_tier"] = case["point_tier"]
         for k in ("start_time", "end_time"):
@@ -1065,14 +1199,29 @@ class C11(PropertyCheck):
                 alt[kind] = type(e).__name__
         obs["other_sequences_same"] = alt
 
-        def rd(fill):
+        def rd(fill, style="positional"):
             def go(src):
-                tr, a, b = d.read_textgrid(src, case["tier_id"], fill)
+                if style == "positional":
+                    tr, a, b = d.read_textgrid(src, case["tier_id"], fill)
+                elif style == "keyword":
+                    tr, a, b = d.read_textgrid(tg=src, fill_token=fill, tier_id=case["tier_id"])
+                else:          # options that are at their default left out
+                    kwr = {}
+                    if case["tier_id"] != TG_DEFAULTS["tier_id"] or isinstance(case["tier_id"], str):
+                        kwr["tier_id"] = case["tier_id"]
+                    if fill is not None:
+                        kwr["fill_token"] = fill
+                    tr, a, b = d.read_textgrid(src, **kwr)
                 return {"t": [[tok, frac_str(s), frac_str(e)] for tok, s, e in tr],
                         "xmin": frac_str(a), "xmax": frac_str(b)}
             return go
         rp, rf = read_both(rd(case["fill"]), path)
         obs["read_same"] = rp == rf
+        # the same read with the options by keyword / with defaults left out
+        for style in ("keyword", "minimal"):
+            rp2, rf2 = read_both(rd(case["fill"], style), path)
+            if (rp2, rf2) != (rp, rf):
+                obs["read_styles_same"] = False
         obs["read"] = rf["ok"] if "ok" in rf else {"error": rf["error"]}
         _, rn = read_both(rd(None), path)
         obs["read_nofill"] = rn["ok"] if "ok" in rn else {"error": rn["error"]}
@@ -1104,7 +1253,12 @@ class C11(PropertyCheck):
         # keyword spelling of every option
         tokk = d.transcript_to_token(transcript=t, token2id=t2i, frame_shift_ms=f, unk=case["unk"], skip_frame_times=False)
         backk = d.token_to_transcript(ref=tok, id2token=i2t, frame_shift_ms=f)
-        return {"rows": rows,
+        # options that are None / at their default left out altogether
+        kw1 = {k_: v_ for k_, v_ in (("token2id", t2i), ("frame_shift_ms", f), ("unk", case["unk"])) if v_ is not None}
+        tokm = d.transcript_to_token(t, **kw1)
+        kw2 = {k_: v_ for k_, v_ in (("id2token", i2t), ("frame_shift_ms", f)) if v_ is not None}
+        backm = d.token_to_transcript(tok, **kw2)
+        return {"rows": rows, "minimal_same": bool((tokm == tok).all()) and list(backm) == list(back),
                 "back": [x if not isinstance(x, tuple) else [x[0], frac_str(x[1]), frac_str(x[2])] for x in back],
                 "ids_only": [int(v) for v in tok1.tolist()], "back_ids_only": list(back1),
                 "back_r1_same": list(back2) == list(back1),
@@ -1381,6 +1535,9 @@ class C11(PropertyCheck):
                               "C11.trn.workers"))
             if impl.get("iter_same") is False:
                 fails.append(("read_trn_iter differs from read_trn", "C11.trn.iter"))
+            if impl.get("processes0_same") is False:
+                fails.append(("read_trn(path, warn, 0, chunk_size) differs from read_trn(path, warn) or starts a pool",
+                              "C11.trn.workers"))
             for how in ("text", "raw"):
                 if impl["read_crlf"][how] != spec:
                     fails.append((f"trn written with CRLF line ends, read {how}: wrote {framework.short(spec)} read "
@@ -1388,6 +1545,7 @@ class C11(PropertyCheck):
             if impl.get("iter_pool_same") is False:
                 fails.append(("read_trn_iter(path, processes, chunk_size) differs from read_trn", "C11.trn.iter"))
         elif k == "ctm":
+            fails.extend(self.pred_ctm_mapping(case, impl))
             if model is None or not model.get("in_domain") or model.get("spec") is None or not model.get("fields_ok"):
                 return fails
             exact = case.get("stream") != "tolerance"
@@ -1439,12 +1597,16 @@ class C11(PropertyCheck):
             return fails
         for (tok, s, e), (_, w_s, w_e) in zip(got, exp):
             if abs(F(s) - w_s) > half + slack:
-                fails.append((f"start of {tok!r}: wrote {w_s} read {F(s)} at precision {p}", sig_prefix + ".precision"))
-            if point:
-                if F(e) != F(s):
-                    fails.append((f"point {tok!r} read with start {s} != end {e}", sig_prefix + ".point"))
-            elif abs(F(e) - w_e) > half + slack:
-                fails.append((f"end of {tok!r}: wrote {w_e} read {F(e)} at precision {p}", sig_prefix + ".precision"))
+                fails.append((f"start of {tok!r}: wrote {w_s} = {float(w_s)!r} read {float(F(s))!r} at precision {p}",
+                              sig_prefix + ".precision"))
+            if point and F(e) != F(s):
+                fails.append((f"point {tok!r} read with start {s} != end {e}", sig_prefix + ".point"))
+            # the end comes back to within the print precision whatever tier type the writer chose: a tier may
+            # only be written as points if that loses nothing at the precision asked for
+            if abs(F(e) - w_e) > half + slack:
+                fails.append((f"end of {tok!r}: wrote ({w_s}, {w_e}) = ({float(w_s)!r}, {float(w_e)!r}) read "
+                              f"({float(F(s))!r}, {float(F(e))!r}) at precision {p} from a "
+                              f"{'point' if point else 'interval'} tier", sig_prefix + ".precision"))
         # the tier's own bounds come back to within the print precision
         for name, have, want in (("start", read["xmin"], bounds[0]), ("end", read["xmax"], bounds[1])):
             if abs(F(have) - want) > half + slack:
@@ -1463,7 +1625,9 @@ class C11(PropertyCheck):
                 expf.append([fill, str(prev), str(F(read["xmax"]))])
             have = [[tok, str(F(s)), str(F(e))] for tok, s, e in read_fill["t"]]
             if have != expf:
-                fails.append((f"gap filling: expected {expf} got {have}", sig_prefix + ".fill"))
+                show = lambda l: [(a, float(F(b)), float(F(c))) for a, b, c in l]
+                fails.append((f"gap filling with fill_token={fill!r} (tier from {float(F(read['xmin']))!r} to "
+                              f"{float(F(read['xmax']))!r}): expected {show(expf)} got {show(have)}", sig_prefix + ".fill"))
             if (read_fill["xmin"], read_fill["xmax"]) != (read["xmin"], read["xmax"]):
                 fails.append(("tier bounds differ between reading with and without a fill token", sig_prefix + ".fill"))
         return fails
@@ -1479,6 +1643,26 @@ class C11(PropertyCheck):
                               "C11.textgrid.sequence"))
         starts = [F(x[1]) for x in t]
         ends = [F(x[2]) for x in t]
+        # what the options mean (documentation of write_textgrid): the recording's start / end time are the ones
+        # given (else the minimum start / maximum end), printed - like every time - with `precision` digits, in a
+        # tier called `tier_name`
+        lines, p = impl["lines"], case["precision"]
+        want_lo = F(case["start_time"]) if case["start_time"] is not None else min(starts)
+        want_hi = F(case["end_time"]) if case["end_time"] is not None else max(ends)
+        for what, line, want in (("start_time", lines[2], want_lo), ("end_time", lines[3], want_hi),
+                                 ("tier start", lines[8], min(starts)), ("tier end", lines[9], max(ends))):
+            ip, dot, fp = line.partition(".")
+            if not (ip.isdigit() and ip.isascii() and (fp.isdigit() and fp.isascii() and len(fp) == p if p else
+                                                         (dot, fp) == ("", ""))):
+                fails.append((f"{what} printed as {line!r} with precision={p}"
+                              f"{' (left at its default)' if 'precision' in (case.get('omit') or ()) else ''}",
+                              "C11.textgrid.digits"))
+            elif abs(Fraction(line) - want) > Fraction(1, 2 * 10 ** p) * (1 + Fraction(1, 10 ** 9)):
+                fails.append((f"{what}: {want} asked for (start_time={case['start_time']}, end_time={case['end_time']}, "
+                              f"entries from {min(starts)} to {max(ends)}), file holds {line} at precision {p}",
+                              "C11.textgrid.header"))
+        if "\n" not in case["tier_name"] and lines[7] != f'"{case["tier_name"]}"':
+            fails.append((f"tier_name={case['tier_name']!r} asked for, file holds {lines[7]}", "C11.textgrid.header"))
         # domain of the clause: a tier type that can hold the transcript, the tier can be found
         if case["point_tier"] is True and any(s != e for s, e in zip(starts, ends)):
             return fails
@@ -1495,6 +1679,9 @@ class C11(PropertyCheck):
         written = [(x[0], s, e) for x, s, e in zip(t, starts, ends)]
         fails.extend(self.tier_clauses(written, r, impl["read"], case["fill"], p, point,
                                        (min(starts), max(ends)), "C11.textgrid"))
+        if impl.get("read_styles_same") is False:
+            fails.append(("read_textgrid: options given by keyword / defaults left out give another result than "
+                          "positionally", "C11.textgrid.call_style"))
         # the same file with CRLF line ends reads the same (raw: unless a label holds a line break itself)
         rc = impl.get("read_crlf") or {}
         if rc and "error" not in impl["read"]:
@@ -1537,6 +1724,32 @@ class C11(PropertyCheck):
                           f"holds {[x[0] for x in tiers[0]['entries']]}", "C11.textgrid.tiers.order"))
         return fails
 
+    def pred_ctm_mapping(self, case, impl):
+        """"with any waveform/channel mapping": a mapping that was given is the one used - an utterance / a recording
+        it does not hold is a KeyError, also when the mapping is empty (never a silent fall back to 'no mapping')."""
+        if case.get("malformed") not in (None, "key", "key_read"):
+            return []
+        if not all(0 <= F(s) <= F(e) for _, tt in case["ts"] for _, s, e in tt):
+            return []
+        fails = []
+        u2w, w2u = case.get("utt2wc"), case.get("wc2utt")
+        if isinstance(u2w, list):
+            keys = {u for u, _, _ in u2w}
+            missing = [u for u, _ in case["ts"] if u not in keys]
+            if missing and impl.get("write_file") != "KeyError":
+                fails.append((f"write_ctm with utt2wc={ {u: (w, c) for u, w, c in u2w}!r} and utterances "
+                              f"{[u for u, _ in case['ts']]}: expected KeyError for {missing[0]!r}, got "
+                              f"{impl.get('write_file')} {framework.short(impl.get('lines'))}", "C11.ctm.mapping"))
+        lines = impl.get("lines")
+        if isinstance(w2u, list) and isinstance(lines, list) and all(isinstance(l, list) for l in lines):
+            keys = {(w, c) for w, c, _ in w2u}
+            missing = [(l[0], l[1]) for l in lines if (l[0], l[1]) not in keys]
+            if missing and impl.get("read") != {"error": "KeyError"}:
+                fails.append((f"read_ctm with wc2utt={ {(w, c): u for w, c, u in w2u}!r} on records "
+                              f"{[(l[0], l[1]) for l in lines]}: expected KeyError for {missing[0]}, got "
+                              f"{framework.short(impl.get('read'))}", "C11.ctm.mapping"))
+        return fails
+
     def pred_ctm_text(self, case, impl):
         fails = []
         if impl.get("read_stringio") != impl.get("read"):
@@ -1551,7 +1764,11 @@ class C11(PropertyCheck):
                 continue
             w, c, s, du, tok = rec
             if m is not None and (w, c) not in m:
-                return fails                      # KeyError expected (correspondence only)
+                # a mapping was given (an empty one included) and does not know this recording
+                if impl["read"] != {"error": "KeyError"}:
+                    fails.append((f"ctm text {case['text']!r} read with wc2utt={dict(m)!r}: ({w!r}, {c!r}) is not a key, "
+                                  f"expected KeyError, got {framework.short(impl['read'])}", "C11.ctm.mapping"))
+                return fails
             u = w if m is None else m[(w, c)]
             exp.setdefault(u, []).append([tok, F(s), F(s) + F(du)])
         want = [[u, [[tok, str(a), str(b)] for tok, a, b in sorted(t, key=lambda x: x[1])]] for u, t in exp.items()]
@@ -1605,6 +1822,23 @@ class C11(PropertyCheck):
             fails.append(("token_to_transcript of an (R, 1) tensor differs from the (R,) one", "C11.frames.ids_only"))
         if impl.get("keywords_same") is False:
             fails.append(("frames: options given by keyword give another result than positionally", "C11.frames.keywords"))
+        if impl.get("minimal_same") is False:
+            fails.append(("frames: leaving out the options that are None gives another result than passing None",
+                          "C11.frames.keywords"))
+        # out-of-vocabulary tokens (documentation of `unk`): token2id[unk] if unk is a key, else unk itself is the id;
+        # no unk: the token itself; an empty token2id is a vocabulary in which every token is unknown
+        if t2i is not None:
+            table = {k: v for k, v in t2i}
+            unk = case.get("unk")
+            unk_id = table.get(unk, unk) if unk is not None else None
+            for x, row in zip(t, impl["rows"]):
+                tok = x[0] if isinstance(x, list) else x
+                if tok in table:
+                    continue
+                want = tok if unk is None else unk_id
+                if isinstance(want, int) and row[0] != want:
+                    fails.append((f"frames: token {tok!r} is not in token2id={table!r}, unk={unk!r}: expected id {want}, "
+                                  f"got {row[0]}", "C11.frames.unk"))
         if impl.get("tensor") and (impl["tensor"][0] != "torch.int64" or impl["tensor"][1] != [len(t), 3]
                                    or impl["tensor"][2] != [len(t)]):
             fails.append((f"frames: token tensor dtype/shape {impl['tensor']}", "C11.frames.tensor"))
@@ -1654,7 +1888,12 @@ class C11(PropertyCheck):
                 t.append("trn.beyond_latin1")
         elif k == "ctm":
             u2w = case.get("utt2wc")
-            t.append("ctm.map=" + ("default" if u2w is None else "chan" if isinstance(u2w, str) else "dict"))
+            t.append("ctm.map=" + ("default" if u2w is None else "chan" if isinstance(u2w, str) else
+                                   "dict" if u2w else "empty_dict"))
+            if case.get("wc2utt") == []:
+                t.append("ctm.wc2utt=empty_dict")
+            if any(F(x[1]) == 0 for _, tt in case["ts"] for x in tt):
+                t.append("ctm.start_at_0")
             if any(F(x[1]) >= 10 for _, tt in case["ts"] for x in tt):
                 t.append("ctm.times>=10")
             t.append(f"ctm.mapping_type={case.get('map_type', 'dict')}")
@@ -1664,6 +1903,8 @@ class C11(PropertyCheck):
             t.append(f"ctm_text.well_formed={case['well_formed']}")
             t.append("ctm_text.eol=" + ("crlf" if case["eol"] == "\r\n" else "lf"))
             t.append("ctm_text.map=" + ("none" if case.get("wc2utt") is None else case.get("map_type", "dict")))
+            if case.get("wc2utt") == []:
+                t.append("ctm_text.wc2utt=empty_dict")
             if any(";;" in l for l, _ in case["lines"]):
                 t.append("ctm_text.comment")
             if any(i is not None and len(l.split(";;")[0].split()) == 6 for l, i in case["lines"]):
@@ -1675,7 +1916,11 @@ class C11(PropertyCheck):
             t.append(f"tg_doc.tiers={len(case['tiers'])}")
             t.append("tg_doc.tier_id=" + ("name" if isinstance(case["tier_id"], str) else
                                           "negative" if case["tier_id"] < 0 else "index"))
-            t.append(f"tg_doc.fill={'yes' if case['fill'] else 'no'}")
+            t.append("tg_doc.fill=" + ("none" if case["fill"] is None else "empty_string" if case["fill"] == "" else "token"))
+            if case["tier_id"] == "":
+                t.append("tg_doc.tier_id=empty_name")
+            if any(F(x["tmin"]) == 0 for x in case["tiers"]):
+                t.append("tg_doc.tier_starts_at_0")
             if len({x["name"] for x in case["tiers"]}) < len(case["tiers"]):
                 t.append("tg_doc.duplicate_names")
             if isinstance(impl, dict) and isinstance(impl.get("read"), dict) and "error" in impl["read"]:
@@ -1683,7 +1928,22 @@ class C11(PropertyCheck):
         elif k == "textgrid":
             t.append(f"tg.precision={case['precision']}")
             t.append(f"tg.point_tier={case['point_tier']}")
-            t.append(f"tg.fill={'yes' if case['fill'] else 'no'}")
+            t.append("tg.fill=" + ("none" if case["fill"] is None else "empty_string" if case["fill"] == "" else "token"))
+            if case.get("style"):
+                t.append(f"tg.style={case['style']}")
+            if case.get("stream") == "falsy":
+                for o_ in case.get("omit") or ():
+                    t.append(f"tg.omitted={o_}")
+                for o_, v_ in (("start_time", "0"), ("end_time", "0"), ("tier_name", ""), ("point_tier", False),
+                               ("precision", 0), ("fill", ""), ("tier_id", 0), ("tier_id", "")):
+                    if case[o_] == v_ and type(case[o_]) is type(v_) and o_ not in (case.get("omit") or ()):
+                        t.append(f"tg.falsy={o_}:{v_!r}")
+            if case["t"] and all(F(x[1]) != F(x[2]) and F(x[2]) - F(x[1]) < Fraction(1, 1000) for x in case["t"]):
+                t.append("tg.all_segments_below_1ms")
+            if any(x[0] == "" for x in case["t"]):
+                t.append("tg.empty_label")
+            if case["t"] and min(F(x[1]) for x in case["t"]) == 0:
+                t.append("tg.starts_at_0")
             if any(F(x[1]) >= 10 for x in case["t"]) and any(F(x[1]) < 10 for x in case["t"]):
                 t.append("tg.crosses_10s")
             st_ = [F(x[1]) for x in case["t"]]
@@ -1705,7 +1965,15 @@ class C11(PropertyCheck):
             t.append(f"frames.shift={case['f']}")
             t.append("frames.map=" + ("dict" if case.get("token2id") is not None else "none"))
             if case.get("unk") is not None:
-                t.append("frames.unk")
+                t.append("frames.unk" + ("=0" if case["unk"] == 0 else "=''" if case["unk"] == "" else ""))
+            if case.get("token2id") == []:
+                t.append("frames.token2id=empty_dict")
+            if any(x[0] == "" for x in case["t"] if isinstance(x, list)) or "" in case["t"]:
+                t.append("frames.empty_token")
+            if any(isinstance(x, list) and F(x[1]) == 0 for x in case["t"]):
+                t.append("frames.start_at_0")
+            if any(k_ == 0 for _, k_ in case.get("token2id") or []):
+                t.append("frames.id_0")
             if case.get("f_int"):
                 t.append("frames.shift_is_int")
             if isinstance(impl, dict) and isinstance(impl.get("rows"), dict):
